@@ -1379,19 +1379,28 @@ impl StoryState {
 
             if let Some(output_stream_obj) = j_object.get("outputStream") {
                 self.current_flow.output_stream = json_read::jarray_to_runtime_obj_list(
-                    output_stream_obj.as_array().unwrap(),
+                    output_stream_obj
+                        .as_array()
+                        .ok_or_else(|| StoryError::BadJson("Invalid output stream".to_string()))?,
                     false,
                 )?;
             }
 
             if let Some(current_choices_obj) = j_object.get("currentChoices") {
                 self.current_flow.current_choices = json_read::jarray_to_runtime_obj_list(
-                    current_choices_obj.as_array().unwrap(),
+                    current_choices_obj.as_array().ok_or_else(|| {
+                        StoryError::BadJson("Invalid current choices".to_string())
+                    })?,
                     false,
                 )?
                 .iter()
-                .map(|o| o.clone().into_any().downcast::<Choice>().unwrap())
-                .collect();
+                .map(|o| {
+                    o.clone()
+                        .into_any()
+                        .downcast::<Choice>()
+                        .map_err(|_| StoryError::BadJson("Invalid current choices".to_string()))
+                })
+                .collect::<Result<Vec<Rc<Choice>>, StoryError>>()?;
             }
 
             let j_choice_threads_obj = j_object.get("choiceThreads");
@@ -1414,8 +1423,12 @@ impl StoryState {
         }
 
         if let Some(eval_stack_obj) = j_object.get("evalStack") {
-            self.evaluation_stack =
-                json_read::jarray_to_runtime_obj_list(eval_stack_obj.as_array().unwrap(), false)?;
+            self.evaluation_stack = json_read::jarray_to_runtime_obj_list(
+                eval_stack_obj
+                    .as_array()
+                    .ok_or_else(|| StoryError::BadJson("Invalid evaluation stack".to_string()))?,
+                false,
+            )?;
         }
 
         if let Some(current_divert_target_path) = j_object.get("currentDivertTarget") {
